@@ -101,6 +101,21 @@ func Run(r *rt.Run) error {
 		return c
 	}
 	hnames := []string{"h1", "h2", "h3"}
+	// Two publish handlers on one topic run in their own goroutines and collect on the target topic concurrently: the
+	// target's update order and its handlers' queue order may then differ (Update and Enqueue are two steps), which the
+	// specification models for top-level publishers (c09conc, c09free) but not for publish handlers, whose step is atomic
+	// in Topics.tla.  The random histories therefore keep at most ONE publish handler registered at a time.
+	onePublisher := func(tr *Tr, self string, c Cfg) Cfg {
+		if c.Kind != "publish" {
+			return c
+		}
+		for h, st := range tr.hs {
+			if h != self && st.cfg.Kind == "publish" {
+				return Cfg{Topic: c.Topic, Kind: "rec", Match: c.Match}
+			}
+		}
+		return c
+	}
 	for i := 0; i < nRandom; i++ {
 		tr := svc.Begin(t)
 		n := 6 + r.Rand.Intn(10)
@@ -119,7 +134,7 @@ func Run(r *rt.Run) error {
 				key += fmt.Sprintf(",%s%s%d%s", tp, s.id, s.lvl, tg)
 			case x < 8:
 				if _, ok := tr.hs[h]; !ok {
-					c := randCfg()
+					c := onePublisher(tr, h, randCfg())
 					tr.Register(h, c)
 					key += fmt.Sprintf(",R%s%v", h, c)
 				} else {
@@ -133,6 +148,7 @@ func Run(r *rt.Run) error {
 					if c.Topic == "t2" {
 						c.Kind, c.Targets = "rec", nil
 					}
+					c = onePublisher(tr, h, c)
 					// half of the updates also rename the handler (to a currently unused name)
 					newName := ""
 					if r.Rand.Intn(2) == 0 {
